@@ -279,9 +279,13 @@ class Prop(Check):
             case["match_regs"] = mregs
         # user classes per metamodel (default: every user-class rule of the case in every metamodel)
         users = {}
-        if schema["user"] and len(labels) > 1 and r.chance(0.4):
+        if schema["user"] and len(labels) > 1 and r.chance(0.65 if owners else 0.3):
+            upair = r.weighted([("main-none", 3), ("other-none", 2), ("free", 3)])
             for lab in labels:
-                kind = r.weighted([("all", 2), ("none", 2), ("some", 2)])
+                if upair == "free":
+                    kind = r.weighted([("all", 2), ("none", 2), ("some", 2)])
+                else:
+                    kind = "none" if (lab == 0) == (upair == "main-none") else r.weighted([("all", 3), ("some", 1)])
                 if kind != "all":
                     users[lab] = [u for u in schema["user"] if kind == "some" and r.chance(0.5)]
         timed, built = [], {}
